@@ -190,7 +190,7 @@ PROPS = {
         "lean_modules": ["TableauVerif.Props.C16"],
         "oracles": ["c16.hist"],
         "streams": [
-            ("e2e.C16.history", 60, 600, 8),
+            ("e2e.C16.history", 96, 900, 8),
         ],
         "assumptions": [
             "every history is executed in ONE child process and its last call again in a FRESH child process (real GenProto/GenConf on generated inputs that reuse package, workbook, sheet, enum and column names); observation = files written (hashes) or error code of the last call",
@@ -214,18 +214,20 @@ PROPS = {
     },
     "C11": {
         "lean_modules": ["TableauVerif.Props.C11"],
-        "oracles": ["c11.merge"],
+        "oracles": ["c11.merge", "c11.spec"],
         "streams": [
             ("e2e.C11.merge", 400, 20000, 8),
+            ("e2e.C11.specifiers", 300, 12000),
         ],
         "assumptions": [
             "the merge stream runs the REAL GenProto+GenConf on generated CSV books (rows partitioned over 1..4 books, glob merger) under EVERY completion order of the per-book goroutines, imposed through the verif yield hook in ParseMessage",
+            "the specifier stream runs them on CSV and XLSX books with Merger / Scatter options made of several specifiers (glob, explicit books, book#sheet incl. several sheets of one secondary book, ScatterWithoutBookName) and compares every written file with Model.Sheets.mergedRows / scatteredFiles",
             "modelled: xproto.Merge/CheckMapDuplicateKey, the reduce step of ParseMessage, importer order (sorted matches, primary last); the per-book parse is the table-parser model",
             "partial: Scatter naming/export and explicit sheet specifiers (Book#Sheet) are not covered by this check yet",
         ],
     },
     "C01": {
-        "lean_modules": ["TableauVerif.Props.C01", "TableauVerif.Props.C01List"],
+        "lean_modules": ["TableauVerif.Props.C01", "TableauVerif.Props.C01List", "TableauVerif.Props.C01Sheet"],
         "oracles": ["c01.rt"],
         "streams": [
             ("e2e.C01.roundtrip", 8000, 300000),
@@ -264,11 +266,13 @@ PROPS = {
     },
     "C20": {
         "lean_modules": ["TableauVerif.Props.C20", "TableauVerif.Props.C20Civil"],
-        "oracles": ["c20.ts"],
+        "oracles": ["c20.ts", "c20.gen"],
         "streams": [
             ("corr.xproto.parseTime", 20000, 600000),
+            ("e2e.C20.location", 300, 12000),
         ],
         "assumptions": [
+            "e2e.C20.location runs the real GenProto + GenConf with LocationName \"\" / \"Local\" / a zone name while the worker's machine zone (time.Local) is set to UTC, Kolkata, New_York or Lord_Howe; the reading of the option (\"\" = UTC, Local = machine zone) is the generator's, taken from the property text",
             "modelled: parseTimeWithLocation (layout choice, yyyyMMdd rewrite), time.ParseInLocation for the two layouts, time.Date's two-guess zone lookup, timestamppb.CheckValid; a location is its transition table, enumerated from Go's own zone database through Time.ZoneBounds (1950-2036) on every run",
             "not modelled: fractional seconds (answered 'unmodelled'), local mean time before the table, the POSIX-TZ extension rule after 2036; durations and the EmitTimezones JSON rewrite are not yet covered by this check (partial)",
         ],
@@ -288,14 +292,16 @@ PROPS = {
     },
     "C13": {
         "lean_modules": ["TableauVerif.Props.C13"],
-        "oracles": ["c13.patch"],
+        "oracles": ["c13.patch", "c13.load"],
         "streams": [
             ("corr.xproto.patch", 6000, 300000),
+            ("e2e.C13.load", 3000, 100000),
         ],
         "assumptions": [
             "modelled: xproto.PatchMessage/patchMessage/patchList/patchMap over message trees (populated fields only); unknown fields not modelled",
             "aliasing / src-unchanged is a heap property a pure model cannot express: checked at run time by the harness (proto.Equal of src before/after) and reported in the observation",
-            "load.loadWithPatch file discovery is not modelled yet (partial)",
+            "load.loadWithPatch is modelled as Model.Patch.load (patch type, load mode, existing / missing patch files in the given order) and tied by e2e.C13.load "
+            "through real files in json / text / bin and PatchDirs / PatchPaths; DryRun 'patch' output of confgen is not modelled",
         ],
     },
     "C03": {
@@ -334,6 +340,7 @@ PROPS = {
             ("corr.parseroptions.mergeHeader", 3000, 200000),
             ("corr.confgen.fieldSep", 400, 4000),
             ("corr.protogen.record", 2000, 100000),
+            ("corr.protogen.recordDoc", 2000, 100000),
             ("e2e.C14", 600, 20000),
         ],
         "assumptions": [
